@@ -184,6 +184,19 @@ func factsDedup() {
 	qq := parse("pkg/query/querier.go")
 	sel := body(fn(qq, "querier", "selectFn"))
 	emitList("selectFnPipeline", "pkg/query/querier.go querier.selectFn: set constructors in source order", callSeq(sel, "NewPromSeriesSet", "newStoreSeriesSet", "dedup.NewOverlapSplit", "dedup.NewSeriesSet"))
+	// C04: what a TSDB-backed store does with the requested replica labels (the querier never removes them)
+	ts := parse("pkg/store/tsdb.go")
+	tss := body(fn(ts, "TSDBStore", "Series"))
+	emitList("readPathTSDBStrip", "pkg/store/tsdb.go TSDBStore.Series: how the replica labels leave the external and the series labels",
+		[]string{firstAssignText(tss, "finalExtLset"), firstAssignText(tss, "completeLabelset")})
+	emitList("readPathTSDBStripArgs", "pkg/store/tsdb.go TSDBStore.Series: arguments of every rmLabels call", callArgs(tss, "rmLabels"))
+	var guards []string
+	for _, cnd := range ddIfConds(tss) {
+		if strings.Contains(cnd, "Lset") || strings.Contains(cnd, "eplica") || strings.Contains(cnd, "ToRemove") {
+			guards = append(guards, cnd)
+		}
+	}
+	emitList("readPathTSDBStripGuards", "pkg/store/tsdb.go TSDBStore.Series: if-conditions that mention label sets or replica labels (none: the stripping is unconditional)", guards)
 	bs := body(fn(f, "boundedSeriesIterator", "Seek"))
 	emitList("boundedSeekTests", "pkg/dedup/iter.go boundedSeriesIterator.Seek: its if-conditions", ddIfConds(bs))
 }
